@@ -13,7 +13,7 @@ import (
 // Rules added after the third round of seeded changes (DESIGN.md section 10.6).
 
 func init() {
-	register(&Rule{Name: "NIL-STATE", Floor: 4,
+	register(&Rule{Name: "NIL-STATE", Floor: 3, // the two serving readers and at least one writer (writers may share one load-and-clone helper)
 		Doc: "the snapshot returned by loadState is nil until the first successful registration: every use of it is a nil comparison, a call of a method that tests its receiver against nil before touching it, or a field access dominated by a non-nil test",
 		Run: ruleNilState})
 }
@@ -142,22 +142,35 @@ func ruleMDOwned(r *Run) {
 			if !ok {
 				return
 			}
-			fa, ok := st.Addr.(*ssa.FieldAddr)
-			if !ok {
+			// the field is written directly, or through a pointer handed to a helper (appendHeader(&s.header, …)):
+			// one instance per field the store can reach
+			type target struct {
+				f     *types.Var
+				owner string
+			}
+			var targets []target
+			for _, a := range p.origins(st.Addr, originOpts{}) {
+				fa, ok := a.(*ssa.FieldAddr)
+				if !ok {
+					continue
+				}
+				g := fieldOfAddr(fa)
+				if (g.Name() != "header" && g.Name() != "trailer") || !isMDType(g.Type()) {
+					continue
+				}
+				if o := p.fieldOwner(g); len(o) >= 6 && o[:6] == "stream" {
+					dup := false
+					for _, t := range targets {
+						dup = dup || t.f == g
+					}
+					if !dup {
+						targets = append(targets, target{g, o})
+					}
+				}
+			}
+			if len(targets) == 0 {
 				return
 			}
-			f := fieldOfAddr(fa)
-			if (f.Name() != "header" && f.Name() != "trailer") || !isMDType(f.Type()) {
-				return
-			}
-			owner := p.fieldOwner(f)
-			if len(owner) < 6 || owner[:6] != "stream" {
-				return
-			}
-			n++
-			k := shortFunc(fn) + "/" + owner + "." + f.Name()
-			site[k]++
-			key := fmt.Sprintf("%s#%d", k, site[k])
 			bad := ""
 			for _, o := range p.origins(st.Val, originOpts{}) {
 				switch x := o.(type) {
@@ -176,8 +189,14 @@ func ruleMDOwned(r *Run) {
 					bad = describeValue(o)
 				}
 			}
-			r.check(bad == "", key, in.Pos(), "the stored metadata is freshly built (Join/Copy/New/make)",
-				fmt.Sprintf("the stream keeps %s as its %s metadata: the map is shared with the handler, so what the client receives changes when the handler edits or reuses that map after the call", bad, f.Name()))
+			for _, t := range targets {
+				n++
+				k := shortFunc(fn) + "/" + t.owner + "." + t.f.Name()
+				site[k]++
+				key := fmt.Sprintf("%s#%d", k, site[k])
+				r.check(bad == "", key, in.Pos(), "the stored metadata is freshly built (Join/Copy/New/make)",
+					fmt.Sprintf("the stream keeps %s as its %s metadata: the map is shared with the handler, so what the client receives changes when the handler edits or reuses that map after the call", bad, t.f.Name()))
+			}
 		})
 	}
 	if n == 0 {
